@@ -153,7 +153,10 @@ def run_world(aiu, w, prefix=(), expect=None, budget=30000):
                     loop.run_until_complete(asyncio.wait(tasks, timeout=spec.get('tmo', D / 2)))
                 finally:
                     sched.log('abandon', lname)
-                    loop.close()
+                    if not spec.get('leave_open'):
+                        loop.close()
+                    else:
+                        sched.keep.append(loop)      # stopped for good but never closed
                 if spec.get('collect'):
                     # what garbage collection of the abandoned calls does, made deterministic: the
                     # pending coroutines are closed (GeneratorExit) in this thread, so their
@@ -406,7 +409,7 @@ def worlds(tier, prop):
     # --- two threads, one key, all life-cycles for thread A x simple waiter thread B
     lifes_a = [
         ('L0', {}), ('L1', {'delta': 0.0}), ('L1', {'delta': D / 2}), ('L2', {'tmo': D / 2}),
-        ('L3', {'tmo': D / 2}), ('L3', {'tmo': D / 2, 'collect': True}),
+        ('L3', {'tmo': D / 2}), ('L3', {'tmo': D / 2, 'collect': True}), ('L3', {'tmo': D / 2, 'leave_open': True}),
         ('L4', {'stop_at': D / 2, 'shutdown': True}),
         ('L4', {'stop_at': D / 2, 'shutdown': False}),
     ]
@@ -433,7 +436,7 @@ def worlds(tier, prop):
             ['sleepD', 'sleepD', 'ret0'], cache=cache, pb=1)
     # --- three threads: take-over chains (A dies, B takes over, C arrives)
     for la, kw in (('L1', {'delta': D / 2}), ('L3', {'tmo': D / 2}), ('L1', {'delta': 0.0}),
-                   ('L3', {'tmo': D / 2, 'collect': True})):
+                   ('L3', {'tmo': D / 2, 'collect': True}), ('L3', {'tmo': D / 2, 'leave_open': True})):
         for offc in (0.0, D / 2, D):
             add(f'3t/{la}{kw}/offc{offc}',
                 [dict(life=la, m=1, offset=0.0, **kw), dict(life='L0', m=1, offset=0.0),
